@@ -511,7 +511,7 @@ def manipulate(crv, f, normalized=False, vectorized=False):
             elif arg_names[j] == 't':
                 argv[j] = t
             elif arg_names[j] == 'v':
-                c0 = np.array([i for i in range(n) if b.continuity(t[i]) == 0])
+                c0 = np.array([i for i in range(n) if b.continuity(t[i]) < 1 and b.start() < t[i] < b.end()])
                 v = crv.derivative(t, 1)
                 if len(c0)>0:
                     v[c0,:] = (v[c0,:] + crv.derivative(t[c0], 1, above=False)) / 2.0
@@ -519,7 +519,7 @@ def manipulate(crv, f, normalized=False, vectorized=False):
                     v[:] = [vel / norm(vel) for vel in v]
                 argv[j] = v
             elif arg_names[j] == 'a':
-                c1 = np.array([i for i in range(n) if b.continuity(t[i]) < 2])
+                c1 = np.array([i for i in range(n) if b.continuity(t[i]) < 2 and b.start() < t[i] < b.end()])
                 a = crv.derivative(t, 2)
                 if len(c1)>0:
                     a[c1,:] = (a[c1,:] + crv.derivative(t[c1], 2, above=False)) / 2.0
@@ -541,7 +541,7 @@ def manipulate(crv, f, normalized=False, vectorized=False):
                     argv[j] = t1
                 elif arg_names[j] == 'v':
                     v = crv.derivative(t1, 1)
-                    if b.continuity(t1) < 1:
+                    if b.continuity(t1) < 1 and b.start() < t1 < b.end():
                         v += crv.derivative(t1, 1, above=False)
                         v /= 2.0
                     if normalized:
@@ -549,7 +549,7 @@ def manipulate(crv, f, normalized=False, vectorized=False):
                     argv[j] = v
                 elif arg_names[j] == 'a':
                     a = crv.derivative(t1, 2)
-                    if b.continuity(t1) < 2:
+                    if b.continuity(t1) < 2 and b.start() < t1 < b.end():
                         a += crv.derivative(t1, 2, above=False)
                         a /= 2.0
                     if normalized:
